@@ -47,6 +47,19 @@ class VE {
 """
 
 
+_EXTRA_TEMPLATE = []
+
+
+def _fresh_with_extra():
+    """mockrepo.fresh() + the extra classes, from a cached template"""
+    if not _EXTRA_TEMPLATE:
+        c = mockrepo.fresh()
+        for ns in (NS1, NS2):
+            c.compile_mof_string(EXTRA_MOF, namespace=ns)
+        _EXTRA_TEMPLATE.append(c)
+    return copy.deepcopy(_EXTRA_TEMPLATE[0])
+
+
 def h(x):
     return hashlib.sha1(repr(x).encode("utf-8")).hexdigest()[:12]
 
@@ -150,12 +163,10 @@ def outcome(fn):
 class Pair:
     def __init__(self, dflt):
         self.dflt = dflt
-        self.srvA = mockrepo.fresh()
-        self.B = mockrepo.fresh()
+        self.srvA = _fresh_with_extra()
+        self.B = _fresh_with_extra()
         for c in (self.srvA, self.B):
             mockrepo.register_method_provider(c)
-            for ns in (NS1, NS2):
-                c.compile_mof_string(EXTRA_MOF, namespace=ns)
         self.B.default_namespace = dflt
         self.wire, self.facade = facade.wire_connection(self.srvA, dflt)
         self.events = []
@@ -863,12 +874,12 @@ def run(ctx):
                      label="enumeration of method-call histories")
         hs = rg.printed("MH")
         ctx.rng.shuffle(hs)
-        hs = hs[:90 if quick else 2500]
+        hs = hs[:90 if quick else 1200]
         hists += hs
     for _, d0, hist in hists:
         pairs.append(method_history(ctx.rng, d0, list(hist)))
     ctx.extra["tlc_method_histories_replayed"] = len(hists)
-    nseq = 40 if quick else 700
+    nseq = 40 if quick else 350
     for i in range(nseq):
         p = Pair(ctx.rng.choice([NS1, NS1, NS2, "root/other"]))
         random_sequence(ctx.rng, p, ctx.rng.randint(8, 25))
